@@ -292,6 +292,10 @@ def gen_file(rnd, fileno, name, opts, shared_exports=(), nstmt=None):
     # alias definitions: anywhere, in any order relative to each other and to the labels they mention (chains in reverse order too)
     for d in (reversed(ctx.alias_defs) if rnd.random() < 0.5 else ctx.alias_defs):
         stmts.insert(rnd.choice([0, rnd.randrange(len(stmts) + 1), len(stmts)]), d)
+    if opts.get("titles", True) and rnd.random() < 0.15:
+        # literal-text directives (no bytes): the text runs to the end of the line, whatever it looks like
+        stmts.insert(rnd.randrange(len(stmts) + 1), apm.simple(rnd.choice([".title", ".sbttl"]),
+                                                                rnd.choice(["; starts like a comment", "plain text", "(x) ; y", ";", "/v1/ ; c", "\"quoted\" ; '"])))
     if exported and opts.get("extern_all", True) and rnd.random() < 0.2:
         # the same exports through '.extern all' somewhere in the file (it exports what is defined before AND after it)
         for st in stmts:
